@@ -150,7 +150,8 @@ def run_events(chk, n, tagname):
         e = numpy.round(g.uniform(1.5, 9., k), 3)
         if k > 4:
             e[:3] = [2., 4., 8.]               # energies exactly on the bin edges
-            e[3] = 15.5                        # outside 0–15 keV: filtered by the constructor
+            if g.uniform() < 0.6:
+                e[3] = 15.5                    # outside 0–15 keV: filtered by the constructor (otherwise nothing is filtered)
         phi = g.uniform(-math.pi, math.pi, k)
         if k in (2, 3) and g.uniform() < 0.5:
             phi[:] = phi[0]                    # identical events
@@ -160,9 +161,23 @@ def run_events(chk, n, tagname):
         aeff = lambda E: 20. + 3. * numpy.asarray(E) ** 2
         q, u = SA.stokes_q(phi), SA.stokes_u(phi, None)       # as xpbin does: the Q, U columns are unweighted, the weights go in separately
         edges = [2., 4., 8.]
-        an = SA(q, u, e.copy(), modf, aeff, 1000., w.copy() if usew else None, acc)
+        # the caller's arrays are handed over as they are (xpbin hands over the columns of the open event file): an analysis must not
+        # change them, and a second analysis of the same arrays must give the same table
+        q_in, u_in, e_in, w_in = q.copy(), u.copy(), e.copy(), w.copy()
+        an = SA(q_in, u_in, e_in, modf, aeff, 1000., w_in if usew else None, acc)
         try:
             tab = an.polarization_table(numpy.array(edges), degrees=True)
+            if not (numpy.array_equal(q_in, q) and numpy.array_equal(u_in, u) and numpy.array_equal(e_in, e) and numpy.array_equal(w_in, w)):
+                changed = [nm for nm, a_, b_ in (('q', q_in, q), ('u', u_in, u), ('energy', e_in, e), ('weights', w_in, w)) if not numpy.array_equal(a_, b_)]
+                chk.fail('impl', 'xStokesAnalysis (events %d, weights %s, acceptcorr %s) modified the caller\'s %s array(s) in place' % (k, usew, acc, changed),
+                         dict(oracle='events-aliasing', phi=phi.tolist(), energy=e.tolist(), w=w.tolist(), weights=usew, acceptcorr=acc, changed=changed))
+            tab2 = SA(q_in, u_in, e_in, modf, aeff, 1000., w_in if usew else None, acc).polarization_table(numpy.array(edges), degrees=True)
+            for c in COLS:
+                a_, b_ = numpy.array(tab[c], dtype=float), numpy.array(tab2[c], dtype=float)
+                if not numpy.array_equal(a_, b_, equal_nan=True):
+                    chk.fail('impl', 'a second analysis of the same arrays gives a different %s: %s vs %s (events %d, weights %s, acceptcorr %s)' % (c, b_, a_, k, usew, acc),
+                             dict(oracle='events-twice', column=c, phi=phi.tolist(), energy=e.tolist(), w=w.tolist(), weights=usew, acceptcorr=acc))
+                    break
         except BaseException as ex:
             chk.case(dict(op='events', n=k), nontrivial=True)
             chk.fail('impl', 'polarization_table raised %s: %s (events %d, weights %s, acceptcorr %s)' % (type(ex).__name__, ex, k, usew, acc),
